@@ -27,6 +27,7 @@ func c01(c *Ctx) {
 	c01R3(c)
 	c01R4(c)
 	valsetCacheRule(c, "R5")
+	walSkipRule(c, "R6")
 }
 
 // quorumRule is shared by C01-R1, C14-R2 and C15.
